@@ -517,17 +517,26 @@ def lookup_key_rule(ctx, rule: str, wname: str):
     repo = ctx.repo
     sf = repo.cls(wname).methods['_single_cost_fn_map']
     n, bad = 0, []
+    seen_lk = set()
     for p in returning(paths(repo, sf)):
-        for e in p.events:
-            if e.kind == 'setitem' and e.data[0][0] != 'unknown':
-                v = e.data[2]
-                if v[0] == 'sub' and v[1] == ('param', sf.params[1]) and v[2][0] == 'tuple' and \
-                        len(v[2][1]) == 2:
-                    n += 1
-                    spec = v[2][1][1]
-                    if not (is_call(spec, 'builtins.vars') and spec[2] and
-                            spec[2][0][0] in ('sub', 'elem')):
-                        bad.append((e, spec))
+        # the map is filled item by item, or returned as a dictionary comprehension
+        cands = [(e, e.data[2]) for e in p.events
+                 if e.kind == 'setitem' and e.data[0][0] != 'unknown']
+        if p.retval is not None and mentions(p.retval, lambda y: y[0] == 'comp'):
+            last = p.events[-1] if p.events else None
+            cands += [(last, x) for x in subterms(p.retval)
+                      if x[0] == 'sub' and x[1] == ('param', sf.params[1])]
+        for e, v in cands:
+            if v[0] == 'sub' and v[1] == ('param', sf.params[1]) and v[2][0] == 'tuple' and \
+                    len(v[2][1]) == 2:
+                if v in seen_lk:
+                    continue
+                seen_lk.add(v)
+                n += 1
+                spec = v[2][1][1]
+                if not (is_call(spec, 'builtins.vars') and spec[2] and
+                        spec[2][0][0] in ('sub', 'elem')):
+                    bad.append((e, spec))
     ctx.ob(rule, f'{wname}._single_cost_fn_map lookup key', n > 0 and not bad,
            'cost functions are selected with (layer type, vars(layer)): static attributes'
            if n > 0 and not bad else
@@ -536,7 +545,7 @@ def lookup_key_rule(ctx, rule: str, wname: str):
            f'vars(layer): pattern constraints (depthwise: in_channels == groups) are evaluated '
            f'on effective sizes that are fractional during the search, fail, and the generic '
            f'model is frozen into the map for a depthwise layer',
-           where(sf, bad[0][0].node) if bad else where(sf))
+           where(sf, bad[0][0].node) if bad and bad[0][0] is not None else where(sf))
 
 
 def leaf_lists_rule(ctx, rule: str, wname: str):
